@@ -305,6 +305,22 @@ func mentionsCff(e constraint.Expr) bool {
 // genHeader draws a build-constraint header that selects the file when cff
 // and the returned extra tags are set.
 func genHeader(t *rapid.T) (header string, extraTags []string, label string) {
+	header, extraTags, label = genHeader0(t)
+	// comments and blank lines that may legally precede build constraints
+	switch uniform(t, "preamble", 8) {
+	case 0:
+		header, label = "/* Copyright 2024 Example Inc. */\n\n"+header, label+"+blockcomment1"
+	case 1:
+		header, label = "/*\n * Copyright 2024 Example Inc.\n * All rights reserved.\n */\n\n"+header, label+"+blockcommentN"
+	case 2:
+		header, label = "// Copyright 2024 Example Inc.\n// Licensed under the terms.\n\n"+header, label+"+linecomment"
+	case 3:
+		header, label = "\n\n"+header, label+"+blank"
+	}
+	return
+}
+
+func genHeader0(t *rapid.T) (header string, extraTags []string, label string) {
 	if uniform(t, "plainheader", 3) == 0 {
 		switch uniform(t, "plainkind", 3) {
 		case 0:
@@ -860,7 +876,7 @@ func genNonTrivial(prop string, gc *genCase, s *rt.Spec, f *FileSpec) bool {
 		m := gc.mutation[f.Name]
 		return m != "" && m != "none" && len(s.Tasks) >= 3
 	case "C16":
-		return gc.hdrLabel[f.Name] != "" && !strings.HasSuffix(gc.hdrLabel[f.Name], "plain") || len(f.Progs) >= 2
+		return gc.hdrLabel[f.Name] != "" && !strings.Contains(gc.hdrLabel[f.Name], "plain") || len(f.Progs) >= 2
 	case "C17":
 		return len(gc.pkg.Files) >= 2
 	case "C20":
